@@ -6,10 +6,11 @@
   the hash function; see Spec.C35.  `Count` itself (floating point) is not modelled.
 -/
 import Influx.Lemmas.HLL
+import Influx.Lemmas.HLLAdd
 import Influx.Spec.C35
 
 namespace Influx.Props.C35
-open Influx.Model.HLL Influx.Lemmas.HLL Influx.Spec.C35
+open Influx.Model.HLL Influx.Lemmas.HLL Influx.Lemmas.HLLAdd Influx.Spec.C35
 
 theorem ext_of_reg (x y : Array Nat) (n : Nat) (hx : x.size = n) (hy : y.size = n)
     (h : ∀ i, i < n → reg x i = reg y i) : x = y := by
@@ -89,6 +90,55 @@ theorem C35_idem (a x : Plus) (wa : WF a) (h : merge a a = .ok x) : regs x = reg
   intro i hi
   rw [m1 i hi]; omega
 
+/-! ### sketches as functions of the set of hashes; union -/
+
+/-- **the sparse coding loses nothing**: `decodeHash (encodeHash x)` is the dense `(index, rho)` of `x`,
+    for every precision 4..18 and every 64-bit hash. -/
+theorem C35_decode_encode (p x : Nat) (hp4 : 4 ≤ p) (hp18 : p ≤ 18) (hx : x < 2 ^ 64) :
+    decodeHash p (encodeHash p x) = denseIdxRho p x :=
+  Influx.Lemmas.HLLBits.decode_encode p x hp4 hp18 hx
+
+/-- **`Add`** raises register `index(x)` to at least `rho(x)` and changes nothing else — whatever the
+    representation, including across the sparse → dense switch. -/
+theorem C35_add (h : Plus) (w : WF h) (x : Nat) (hx : x < 2 ^ 64) (i : Nat) (hi : i < 2 ^ h.p) :
+    reg (regs (add h x)) i = max (reg (regs h) i) (if (denseIdxRho h.p x).1 = i then (denseIdxRho h.p x).2 else 0) :=
+  (add_regs h w x hx).2.2 i hi
+
+/-- the registers of `NewPlus(p)` + `Add`s: register `i` is the largest `rho` among the hashes with index `i` -/
+theorem C35_sketch (p : Nat) (e : Plus) (he : newPlus p = some e) (xs : List Nat) (hx : ∀ x, x ∈ xs → x < 2 ^ 64)
+    (i : Nat) (hi : i < 2 ^ p) : reg (regs (addAll e xs)) i = supAt (denseIdxRho p) xs i :=
+  (sketch_regs p e he xs hx).2.2 i hi
+
+/-- **a sketch depends only on the set of hashes added** (order and repetitions are irrelevant, and so is
+    the moment the representation switched from sparse to dense) -/
+theorem C35_sketch_of_set (p : Nat) (e : Plus) (he : newPlus p = some e) (A B : List Nat)
+    (hA : ∀ x, x ∈ A → x < 2 ^ 64) (hB : ∀ x, x ∈ B → x < 2 ^ 64) (hAB : ∀ x, x ∈ A ↔ x ∈ B) :
+    regs (addAll e A) = regs (addAll e B) := by
+  obtain ⟨wA, pA, rA⟩ := sketch_regs p e he A hA
+  obtain ⟨wB, pB, rB⟩ := sketch_regs p e he B hB
+  apply ext_of_reg _ _ (2 ^ p) (by rw [← pA]; exact (regs_spec _ wA).1) (by rw [← pB]; exact (regs_spec _ wB).1)
+  intro i hi
+  rw [rA i hi, rB i hi]
+  exact supAt_set _ A B i hAB
+
+/-- **union**: merging the sketches of `A` and `B` gives the registers of the sketch of `A ∪ B`
+    (any list `U` with exactly the elements of `A` and `B`) — the merged sketch *is* the sketch of the union. -/
+theorem C35_union (p : Nat) (e : Plus) (he : newPlus p = some e) (A B U : List Nat) (c : Plus)
+    (hA : ∀ x, x ∈ A → x < 2 ^ 64) (hB : ∀ x, x ∈ B → x < 2 ^ 64) (hU : ∀ x, x ∈ U ↔ (x ∈ A ∨ x ∈ B))
+    (hm : merge (addAll e A) (addAll e B) = .ok c) : regs c = regs (addAll e U) := by
+  have hUb : ∀ x, x ∈ U → x < 2 ^ 64 := fun x hx => (hU x).mp hx |>.elim (hA x) (hB x)
+  obtain ⟨wA, pA, rA⟩ := sketch_regs p e he A hA
+  obtain ⟨wB, pB, rB⟩ := sketch_regs p e he B hB
+  obtain ⟨wU, pU, rU⟩ := sketch_regs p e he U hUb
+  obtain ⟨s1, m1⟩ := C35_merge_is_max _ _ c wA wB hm
+  rw [pA] at s1 m1
+  apply ext_of_reg _ _ (2 ^ p) s1 (by rw [← pU]; exact (regs_spec _ wU).1)
+  intro i hi
+  rw [m1 i hi, rA i hi, rB i hi, rU i hi]
+  have hset : supAt (denseIdxRho p) U i = supAt (denseIdxRho p) (A ++ B) i :=
+    supAt_set _ U (A ++ B) i (fun x => by rw [hU x, List.mem_append])
+  rw [hset, supAt_append]
+
 /-- a sparse sketch and a dense one (the normalised copy of another sparse sketch), both with
     content: the hypotheses above are not vacuous -/
 def ex0 : Plus := { p := 4, sparse := true, tmpSet := [], sparseVals := [], sparseBytes := 0, dense := #[] }
@@ -107,6 +157,14 @@ example : exA.sparse = true ∧ exB.sparse = false ∧ exA.p = exB.p ∧
 /-- the merge laws as operations on model sketches -/
 inductive Op where
   | comm (a b : Plus) | assoc (a b c : Plus) | idem (a : Plus)
+  /-- sketches of the hash lists `A`, `B` merged, vs the (normalised) sketch of `U` -/
+  | union (p : Nat) (A B U : List Nat)
+
+/-- `NewPlus(p)` and `Add`s; an unusable precision gives the empty record (excluded by `opOK`) -/
+def sketch (p : Nat) (xs : List Nat) : Plus :=
+  match newPlus p with
+  | some e => addAll e xs
+  | none => { p := p, sparse := true, tmpSet := [], sparseVals := [], sparseBytes := 0, dense := #[] }
 
 def okOr (e : Except MErr Plus) (d : Plus) : Plus := match e with | .ok h => h | .error _ => d
 
@@ -118,6 +176,9 @@ def modelObs (render : Array Nat → String) : Op → Obs
     .regs .assoc (render (regs (okOr (merge (okOr (merge a b) a) c) a)))
                  (render (regs (okOr (merge a (okOr (merge b c) a)) a)))
   | .idem a => .regs .idem (render (regs (okOr (merge a a) a))) (render (regs a))
+  | .union p A B U =>
+    .regs .union (render (regs (okOr (merge (sketch p A) (sketch p B)) (sketch p A))))
+                 (render (regs (okOr (merge (sketch p []) (sketch p U)) (sketch p U))))
 
 example : WF exA ∧ WF exB ∧ exA.p = exB.p := ⟨exA_wf, exB_wf, by decide +kernel⟩
 
@@ -126,11 +187,13 @@ def opOK : Op → Prop
   | .comm a b => WF a ∧ WF b ∧ a.p = b.p
   | .assoc a b c => WF a ∧ WF b ∧ WF c ∧ a.p = b.p ∧ b.p = c.p
   | .idem a => WF a
+  | .union p A B U => 4 ≤ p ∧ p ≤ 18 ∧ (∀ x, x ∈ A → x < 2 ^ 64) ∧ (∀ x, x ∈ B → x < 2 ^ 64) ∧
+      (∀ x, x ∈ U ↔ (x ∈ A ∨ x ∈ B))
 
 /-- **C35 (partial)**: the statement checker accepts the model's answer to every commutativity,
-    associativity and idempotence observation, for all well-formed sketches (sparse or dense, any
-    content) of equal precision.  Missing: the union and marshal laws (correspondence only so far)
-    and, by nature, the error bound. -/
+    associativity, idempotence and union observation, for all well-formed sketches (sparse or dense,
+    any content) of equal precision and all hash lists.  Missing: the marshal law (correspondence
+    only so far), equality of estimates (`Count` is not modelled) and, by nature, the error bound. -/
 theorem C35_partial (render : Array Nat → String) (op : Op) (h : opOK op) :
     holdsOn (modelObs render op) = true := by
   cases op with
@@ -153,5 +216,22 @@ theorem C35_partial (render : Array Nat → String) (op : Op) (h : opOK op) :
   | idem a =>
     obtain ⟨x, hx⟩ := merge_ok a a h h rfl
     simp [modelObs, holdsOn, hx, okOr, C35_idem a x h hx]
+  | union p A B U =>
+    obtain ⟨hp4, hp18, hA, hB, hU⟩ := h
+    have hnp : ∃ e, newPlus p = some e := by
+      unfold newPlus; rw [if_neg (by omega)]; exact ⟨_, rfl⟩
+    obtain ⟨e, he⟩ := hnp
+    have hUb : ∀ x, x ∈ U → x < 2 ^ 64 := fun x hx => (hU x).mp hx |>.elim (hA x) (hB x)
+    obtain ⟨wA, pA, _⟩ := sketch_regs p e he A hA
+    obtain ⟨wB, pB, _⟩ := sketch_regs p e he B hB
+    obtain ⟨wU, pU, _⟩ := sketch_regs p e he U hUb
+    obtain ⟨w0, p0, _⟩ := sketch_regs p e he [] (by simp)
+    obtain ⟨c, hc⟩ := merge_ok _ _ wA wB (by rw [pA, pB])
+    obtain ⟨n, hn⟩ := merge_ok _ _ w0 wU (by rw [p0, pU])
+    have e1 := C35_union p e he A B U c hA hB hU hc
+    have e2 : regs n = regs (addAll e U) := by
+      have := C35_union p e he [] U U n (by simp) hUb (by simp) hn
+      exact this
+    simp [modelObs, holdsOn, sketch, he, hc, hn, okOr, e1, e2]
 
 end Influx.Props.C35
